@@ -5,7 +5,7 @@ P="$1"; ID="$2"; TIER="${3:-quick}"
 cd /repo || exit 9
 if [ -n "$(git status --porcelain)" ]; then echo "repo dirty"; exit 9; fi
 if ! git apply "$P" 2>/dev/null; then
-  if ! git apply --3way "$P" 2>/dev/null; then echo "SEED-RESULT patch-does-not-apply"; git checkout -- . ; exit 8; fi
+  if ! git apply --3way "$P" 2>/dev/null; then echo "SEED-RESULT patch-does-not-apply"; git reset -q; git checkout -- . ; exit 8; fi
   git reset -q
 fi
 ( export GOFLAGS=-mod=mod GOPROXY=off GOSUMDB=off GOTOOLCHAIN=local; go build ./... ) || { echo "SEED-RESULT build-failed"; git checkout -- .; exit 7; }
